@@ -28,9 +28,10 @@ func checkC17(c *Ctx) {
 	ruleFrameUnderLocks(c, dv)
 	ruleLedOffset(c, dv)
 	ruleLayerOrder(c, dv)
+	c.importRules(transportRules, []string{"R15.3"}, "R17.8") // MIDI-input messages reach every connected device (fan-out ids, delivery loop)
 	c.MinCount("R17.7", 8)
 	c.MinCount("R17.1", 4)
-	c.MinCount("R17.2", 4)
+	c.MinCount("R17.2", 3)
 	c.MinCount("R17.3", 1)
 	c.MinCount("R17.5", 5)
 	c.MinCount("R17.6", 1)
@@ -73,18 +74,26 @@ func ruleVelocityZero(c *Ctx, dv *dev) {
 	// the receive from midiIn: a select state or a plain receive
 	var start *ssa.BasicBlock
 	selIdx := int64(-1)
-	for _, b := range fn.Blocks {
-		for _, in := range b.Instrs {
-			switch x := in.(type) {
-			case *ssa.Select:
-				for i, st := range x.States {
-					if derivesFromField(st.Chan, dv.fields["midiIn"], map[ssa.Value]bool{}) {
-						start, selIdx = b, int64(i)
+	hosts := []*ssa.Function{fn}
+	for _, h := range c.P.Funcs { // the loop may have been moved into a helper that only this goroutine calls
+		if dv.newHelpers()[h] && dv.ownerOf(h) == fn {
+			hosts = append(hosts, h)
+		}
+	}
+	for _, host := range hosts {
+		for _, b := range host.Blocks {
+			for _, in := range b.Instrs {
+				switch x := in.(type) {
+				case *ssa.Select:
+					for i, st := range x.States {
+						if derivesFromField(st.Chan, dv.fields["midiIn"], map[ssa.Value]bool{}) {
+							start, selIdx = b, int64(i)
+						}
 					}
-				}
-			case *ssa.UnOp:
-				if x.Op == token.ARROW && derivesFromField(x.X, dv.fields["midiIn"], map[ssa.Value]bool{}) {
-					start = b
+				case *ssa.UnOp:
+					if x.Op == token.ARROW && derivesFromField(x.X, dv.fields["midiIn"], map[ssa.Value]bool{}) {
+						start = b
+					}
 				}
 			}
 		}
@@ -92,6 +101,7 @@ func ruleVelocityZero(c *Ctx, dv *dev) {
 	if !c.Require(start != nil, "R17.1", "device.handleInputEvents/receive(midiIn)", "no receive from Device.midiIn found") {
 		return
 	}
+	fn = start.Parent()
 	paths, err := Enumerate(fn, SymConfig{Prog: c.P, MaxDepth: 3, Collapse: true, OnlyInline: dv.withHelpers(map[*ssa.Function]bool{}), Start: start, Stop: map[*ssa.BasicBlock]bool{start: true}})
 	if !c.Require(err == nil, "R17.1", "device.handleInputEvents/paths", fmt.Sprint(err)) {
 		return
@@ -155,7 +165,10 @@ func ruleVelocityZero(c *Ctx, dv *dev) {
 	isExt := func(t *Term) bool {
 		return t.Any(func(x *Term) bool { return dv.isFieldLoad(x, "externalNoteTracker") })
 	}
-	type fx struct{ sets, clears, other int; unlocked, stale bool }
+	type fx struct {
+		sets, clears, other         int
+		unlocked, stale, transposed bool
+	}
 	effectsOf := func(p *Path) fx {
 		var r fx
 		for _, e := range p.Effects {
@@ -193,6 +206,14 @@ func ruleVelocityZero(c *Ctx, dv *dev) {
 					root = x.Call.Args[0]
 				}
 			}
+			// the key is the received note number itself: the frame loop subtracts the transposition that is current when
+			// it paints; a key transposed at arrival is wrong as soon as octave/semitone change before the Note Off
+			if len(e.Args) > 1 {
+				k := e.Args[1].StripConv()
+				if !(k.Op == "call" && strings.Contains(k.Aux, ".Note")) {
+					r.transposed = true
+				}
+			}
 			if ld := fieldLoadOf(root, dv.fields["externalNoteTracker"]); ld == nil || !heldAt(ld, dv.fields["externalTrackerMutex"]) && !lockedInCallers(dv, ld) {
 				r.stale = true
 			}
@@ -222,6 +243,8 @@ func ruleVelocityZero(c *Ctx, dv *dev) {
 				switch {
 				case r.unlocked:
 					bad = "the external tracker is written without its mutex"
+				case r.transposed:
+					bad = "the tracker is keyed by something other than the received note number (ev.Note()): a note transposed when it arrives is cleared under the wrong key once octave/semitone change before its Note Off, and is painted on the wrong key meanwhile"
 				case r.stale:
 					bad = "the tracker map that is written was not read from Device.externalNoteTracker inside the critical section (a reference cached before the loop / outside the lock): after Panic replaced the map, MIDI-input notes go into the discarded one and are never shown"
 				case r.other > 0:
@@ -297,6 +320,11 @@ func ruleLedIndices(c *Ctx, dv *dev) {
 	}
 	sites := map[string]*site{}
 	fns := append([]*ssa.Function{root}, root.AnonFuncs...)
+	for _, h := range c.P.Funcs { // painting helpers/methods introduced by a refactoring (deterministic order)
+		if dv.newHelpers()[h] && dv.ownerOf(h) == root {
+			fns = append(fns, h)
+		}
+	}
 	for _, fn := range fns {
 		vw := NewFnView(c.P, fn)
 		for _, b := range fn.Blocks {
